@@ -66,6 +66,9 @@ class G:
             txt = "f'{" + v + "}" + cur[1][1:] + "'"
             if not cur[1]:
                 txt = f"Is({self.var(repr(''))})"
+            elif r.random() < 0.3:
+                # an f-string without replacement fields (f'ready', f'{{}}'): still an f-string, still the user's
+                txt = "f'" + cur[1] + "'"
         elif k < 0.8:
             txt = f"snapshot({valgen.render(cur)})"
             if not self.agree:
@@ -265,7 +268,7 @@ def classify(case, o):
 # ---- C: other uses of a snapshot that holds user-controlled parts: never compared, membership, sub-snapshots in loops
 def gen_usage(rng, i):
     kind = ["never", "in", "getitem_loop", "never", "in_nested", "bound_nested", "bound_fstring", "getitem_star", "star_nested",
-            "in_star", "star_loop", "equal_other_spelling", "call_hidden_kw"][i % 13]
+            "in_star", "star_loop", "equal_other_spelling", "call_hidden_kw", "inner_field"][i % 14]
     g = G(rng, agree=True)
     flags = tuple(rng.choice(proggen.flag_subsets()))
     if kind == "never":
@@ -389,6 +392,26 @@ def gen_usage(rng, i):
             body = cls + f"EMPTY = ''\n\n\ndef test_a():\n    R = HD({a_new}) == snapshot(HD(a={a_old}, b=Is(EMPTY)))\n"
             g.snips.append("Is(EMPTY)")
         allowed = set()
+    elif kind == "inner_field":
+        # nested snapshot() calls as values of fields that have a default (plain, factory, factory that takes self): each is an independent snapshot that
+        # records what IT is compared with - never the default of the field, never a value computed by the parent
+        cls_kind = rng.choice(["dataclass", "attrs_factory", "attrs_takes_self", "attrs_plain", "namedtuple"])
+        defs = {
+            "dataclass": "from dataclasses import field\n\n\n@dataclass\nclass JB:\n    name: str\n    tags: list = field(default_factory=list)\n    n: int = 0\n",
+            "attrs_factory": "import attrs\n\n\n@attrs.define\nclass JB:\n    name: str\n    tags: list = attrs.field(factory=list)\n    n: int = 0\n",
+            "attrs_takes_self": "import attrs\n\n\n@attrs.define\nclass JB:\n    name: str\n    tags: list = attrs.Factory(lambda self: [self.name.upper()], takes_self=True)\n    n: int = 0\n",
+            "attrs_plain": "import attrs\n\n\n@attrs.define\nclass JB:\n    name: str\n    tags: object = None\n    n: int = 0\n",
+            "namedtuple": "from typing import NamedTuple\n\n\nclass JB(NamedTuple):\n    name: str\n    tags: object = None\n    n: int = 0\n",
+        }
+        name_old, name_new = rng.choice([("deploy", "deploy"), ("deploy", "build")])
+        tags_new = rng.choice([["slow"], ["slow", "nightly"], []])
+        n_new = rng.choice([3, 0])
+        tags_old = rng.choice(["", "['fast']", repr(tags_new)])
+        n_old = rng.choice(["", "1", repr(n_new)])
+        body = (defs[cls_kind] + f"\n\ndef test_a():\n    R = JB({name_new!r}, tags={tags_new!r}, n={n_new}) == "
+                f"snapshot(JB(name={name_old!r}, tags=snapshot({tags_old}), n=snapshot({n_old})))\n")
+        allowed = set()
+        inner = {"tags": (tags_old, tags_new), "n": (n_old, n_new)}
     elif kind == "getitem_star":
         # a dict display holding a star-expression, used with [key]
         base = rng.choice(["{}", "{'z': 0}"])
@@ -410,6 +433,8 @@ def gen_usage(rng, i):
     out = {"source": HEADER + varlines + "\n" + body, "snips": g.snips, "flags": flags, "usage": kind, "allowed": sorted(allowed)}
     if kind == "star_nested":
         out["expect_fixed"] = expect_fixed
+    if kind == "inner_field":
+        out["inner"] = inner
     return out
 
 
@@ -447,6 +472,24 @@ def judge_usage(case, o):
             what = "a sub-snapshot holding Is(i)" if case["usage"] == "getitem_loop" else "a snapshot holding a star-expression whose value agrees"
             return f"{what}, evaluated in a loop, makes the test fail: {bad[0][1]}"
     F = set(case["flags"])
+    if case.get("inner"):
+        try:
+            call = ast.parse(o["arg"], mode="eval").body
+            got = {kw.arg: kw.value for kw in call.keywords}
+        except Exception as e:  # noqa
+            return f"rewritten argument unusable: {e}: {o['arg']}"
+        for fld, (old_txt, new_val) in case["inner"].items():
+            node = got.get(fld)
+            if not (isinstance(node, ast.Call) and isinstance(node.func, ast.Name) and node.func.id == "snapshot"):
+                return f"the nested snapshot() of field {fld} was edited through its parent: {o['old']} -> {o['arg']}"
+            if not node.args:
+                if old_txt:
+                    return f"the nested snapshot of field {fld} lost its value: {o['old']} -> {o['arg']}"
+                continue
+            val = ast.literal_eval(node.args[0])
+            if not ((old_txt and val == ast.literal_eval(old_txt)) or val == new_val):
+                return (f"the nested snapshot of field {fld} holds {val!r}: neither its previous value ({old_txt or 'empty'}) nor the value it was compared with ({new_val!r}) "
+                        f"(flags {sorted(F)}): {o['old']} -> {o['arg']}")
     if case.get("expect_fixed") and "fix" in F:
         try:
             same = ast.dump(ast.parse(o["arg"], mode="eval")) == ast.dump(ast.parse(case["expect_fixed"], mode="eval"))
@@ -566,7 +609,7 @@ def run(ctx: Ctx):
     ctx.coverage["oracle"]["cases"] = m
     ctx.sample({"test": cases[0]["source"].split("def test_a")[1], "unmanaged": cases[0]["snips"], "after_arg": outs[0].get("arg")})
     # C
-    mu = 312 if not ctx.thorough else 3120
+    mu = 336 if not ctx.thorough else 3360
     ucases = [gen_usage(ctx.rng, i) for i in range(mu)]
     uouts = pmap(run_usage, ucases, chunksize=8)
     for c, o in zip(ucases, uouts):
